@@ -77,6 +77,7 @@ type Frame struct {
 	Safety bool
 	Entry  *State // entry state (for old())
 	Params map[string]*Val
+	ParamAlias map[string]string // contract-header parameter name -> source parameter name (top-level frames)
 	// loop bookkeeping
 	loops      map[*ssa.BasicBlock]*loopInfo
 	Returns    []retPoint
